@@ -110,7 +110,7 @@ func (m *monitor) buildCase(phase int, idx int, n int, concurrent bool) (*bbrig.
 	localIn := rng.Intn(4) > 0
 	w := bbrig.NewWorld(fmt.Sprintf("c04-%d-%d-%d", r.Seed, phase, idx), n, th, localIn, 33)
 	o := bbrig.ScriptOpts{
-		Heights:   2 + rng.Intn(3),
+		Heights:   2 + rng.Intn(r.N(2, 3)),
 		Noise:     0.25,
 		Hostile:   0.12,
 		ExpelProb: 0.45,
@@ -396,7 +396,7 @@ func descs(steps []bbrig.Step) []string {
 func TestC04(t *testing.T) {
 	r := vlib.Start(t, "C04", vlib.LevelExploration)
 	defer r.Finish()
-	r.SetRule("case = (suffrage size 1..9, threshold, local in/out of suffrage, generated script of Vote/VoteSignFact/Count/SetLastPoint/StuckVoteproof/suffrage hide+reveal steps over 2-4 heights with INIT, ACCEPT, suffrage-confirm, expel, hostile-expel, hostile embedded voteproofs, outsiders, foreign keys, conflicting ballots) run against a real Ballotbox (interval and countAfter 1ms, ticker on); every voteproof read from box.Voteproof() or returned by StuckVoteproof is judged; distinct = (n, threshold, local, script hash, phase); non-trivial = the box emitted at least one voteproof in the case")
+	r.SetRule("case = (suffrage size 1..9, threshold, local in/out of suffrage, generated script of Vote/VoteSignFact/Count/SetLastPoint/StuckVoteproof/suffrage hide+reveal steps over 2-4 heights (2-3 in the quick tier: every Vote costs ~0.1s CPU under -race) with INIT, ACCEPT, suffrage-confirm, expel, hostile-expel, hostile embedded voteproofs, outsiders, foreign keys, conflicting ballots) run against a real Ballotbox (interval and countAfter 1ms, ticker on); every voteproof read from box.Voteproof() or returned by StuckVoteproof is judged; distinct = (n, threshold, local, script hash, phase); non-trivial = the box emitted at least one voteproof in the case")
 	r.Assume("only ballots and sign facts that pass IsValid(networkID) are submitted (the network handlers guarantee that before Vote)")
 	r.Assume("the suffrage of a height never changes once getSuffrage reports it (heights may be 'not found yet' first)")
 	r.Assume("stuck voteproofs are draws by construction (isaac baseStuckVoteproof.finish clears the majority and validation skips their recount); clause (d) asks of them only Result()==DRAW")
@@ -413,7 +413,7 @@ func TestC04(t *testing.T) {
 	}
 
 	// phase 1: single-threaded scripts (cases independent, run on 12 workers)
-	n1 := r.N(48, 600)
+	n1 := r.N(36, 360)
 	var sampleMu sync.Mutex
 	sampled := 0
 	vlib.Parallel(n1, 12, func(i int) {
@@ -439,7 +439,7 @@ func TestC04(t *testing.T) {
 	})
 
 	// phase 2: the same kind of scripts sharded over 2..16 concurrent voters
-	n2 := r.N(32, 400)
+	n2 := r.N(24, 240)
 	sampled = 0
 	vlib.Parallel(n2, 6, func(i int) {
 		w, steps, cp, g := m.buildCase(2, i, 0, true)
